@@ -226,6 +226,183 @@ def _setdefaults(fn, src):
 
 
 # ----------------------------------------------------------------------------------------------
+# round 3: strict statement-by-statement walk of the three solver functions and the public wrappers
+# ----------------------------------------------------------------------------------------------
+def _u(n) -> str:
+    """one-line normal form of a node."""
+    return " ".join(ast.unparse(n).split()).replace("-/", "- /")
+
+
+def _pairs(xs) -> str:
+    import json
+
+    return "[" + ", ".join(f"({json.dumps(a)}, {json.dumps(b)})" for a, b in xs) + "]"
+
+
+class _Seq:
+    """Strict cursor over the statements of a body: every statement must be claimed, in order."""
+
+    def __init__(self, stmts, where):
+        self.stmts = _strip_doc(stmts)
+        self.k = 0
+        self.where = where
+
+    def next(self, kind=None, text=None, prefix=None):
+        if self.k >= len(self.stmts):
+            raise Unsupported(f"{self.where}: a statement is missing (after #{self.k})")
+        st = self.stmts[self.k]
+        self.k += 1
+        if kind is not None and not isinstance(st, kind):
+            raise Unsupported(f"{self.where}: statement #{self.k} is not {kind.__name__}: {_u(st)[:120]}")
+        if text is not None and _u(st) != text:
+            raise Unsupported(f"{self.where}: statement #{self.k}: expected `{text}`, found `{_u(st)[:160]}`")
+        if prefix is not None and not _u(st).startswith(prefix):
+            raise Unsupported(f"{self.where}: statement #{self.k}: expected `{prefix}…`, found `{_u(st)[:160]}`")
+        return st
+
+    def done(self):
+        if self.k != len(self.stmts):
+            raise Unsupported(f"{self.where}: unexpected statement `{_u(self.stmts[self.k])[:160]}`")
+
+
+def _type_guard(st, where):
+    """`if not isinstance(x, <classes>): raise TypeError(...)` -> (x, [class texts])"""
+    ok = (isinstance(st, ast.If) and not st.orelse and len(st.body) == 1 and isinstance(st.body[0], ast.Raise) and isinstance(st.body[0].exc, ast.Call)
+          and _is_name(st.body[0].exc.func, "TypeError") and isinstance(st.test, ast.UnaryOp) and isinstance(st.test.op, ast.Not)
+          and isinstance(st.test.operand, ast.Call) and _is_name(st.test.operand.func, "isinstance") and len(st.test.operand.args) == 2
+          and isinstance(st.test.operand.args[0], ast.Name))
+    if not ok:
+        raise Unsupported(f"{where}: expected `if not isinstance(x, …): raise TypeError`: {_u(st)[:120]}")
+    c = st.test.operand.args[1]
+    classes = [_u(e) for e in c.elts] if isinstance(c, ast.Tuple) else [_u(c)]
+    return st.test.operand.args[0].id, classes
+
+
+def _wrap_atomgrid(st, src, prefix, P):
+    """`if isinstance(molgrid, AtomGrid): molgrid = MolGrid(atnums=…, atgrids=[molgrid], aim_weights=np.array([w] * molgrid.size), store=…)`"""
+    ok = isinstance(st, ast.If) and not st.orelse and len(st.body) == 1 and _u(st.test) == "isinstance(molgrid, AtomGrid)"
+    wa = st.body[0] if ok else None
+    if not (ok and isinstance(wa, ast.Assign) and _is_name(wa.targets[0], "molgrid") and isinstance(wa.value, ast.Call) and _is_name(wa.value.func, "MolGrid") and not wa.value.args):
+        raise Unsupported(f"{prefix}: AtomGrid wrap")
+    kw = {k.arg: k.value for k in wa.value.keywords}
+    if set(kw) != {"atnums", "atgrids", "aim_weights", "store"} or _u(kw["atgrids"]) != "[molgrid]":
+        raise Unsupported(f"{prefix}: MolGrid(...) keywords of the AtomGrid wrap")
+    w = kw["aim_weights"]
+    # np.array([w] * molgrid.size)
+    ok = (isinstance(w, ast.Call) and _np_call(w.func) == "array" and len(w.args) == 1 and not w.keywords and isinstance(w.args[0], ast.BinOp)
+          and isinstance(w.args[0].op, ast.Mult) and isinstance(w.args[0].left, ast.List) and len(w.args[0].left.elts) == 1
+          and _u(w.args[0].right) == "molgrid.size")
+    a = kw["atnums"]
+    ok = ok and isinstance(a, ast.Call) and _np_call(a.func) == "array" and len(a.args) == 1 and isinstance(a.args[0], ast.List) and len(a.args[0].elts) == 1
+    ok = ok and isinstance(kw["store"], ast.Constant) and isinstance(kw["store"].value, bool)
+    if not ok:
+        raise Unsupported(f"{prefix}: shape of the AtomGrid wrap: {_u(wa)[:200]}")
+    ex = Ex(src, {})
+    P.append(f"/-- `{_u(st)}`: an `AtomGrid` argument is solved as a one-atom molecule whose atom-in-molecule weight is")
+    P.append(f"`{prefix}WrapWeight` at every one of the `molgrid.size` points (list repetition `[w] * size`), atomic number `{prefix}WrapAtnum`, `store={_u(kw['store'])}`. -/")
+    P.append(f"def {prefix}WrapWeight : K := {ex.e(w.args[0].left.elts[0])}")
+    P.append(f"def {prefix}WrapAtnum : K := {ex.e(a.args[0].elts[0])}")
+    P.append(f"def {prefix}WrapStore : Bool := {'true' if kw['store'].value else 'false'}\n")
+
+
+def _public(tree, src, name, callee_name, lean) -> list[str]:
+    """solve_poisson_ivp / solve_poisson_bvp: defaults and how every option reaches the per-atom solver."""
+    fn, callee = _fn(tree, name), _fn(tree, callee_name)
+    P: list[str] = []
+    args = [a.arg for a in fn.args.args]
+    cargs = [a.arg for a in callee.args.args]
+    if args[:3] != ["molgrid", "func_vals", "transform"] or cargs[:3] != ["atomgrid", "func_vals", "transform"] or args[3:] != cargs[3:]:
+        raise Unsupported(f"{name}: parameters {args} vs {cargs}")
+    dfl = list(zip(args[-len(fn.args.defaults):], fn.args.defaults))
+    cdfl = dict(zip(cargs[-len(callee.args.defaults):], callee.args.defaults))
+    body = _Seq(fn.body, name)
+    r = body.next(ast.Return)
+    body.done()
+    c = r.value
+    if not (isinstance(c, ast.Call) and _is_name(c.func, "_interpolate_molgrid_helper") and len(c.args) == 3 and not c.keywords
+            and _is_name(c.args[0], "molgrid") and _is_name(c.args[1], "func_vals") and isinstance(c.args[2], ast.Lambda)):
+        raise Unsupported(f"{name}: return _interpolate_molgrid_helper(molgrid, func_vals, lambda …)")
+    lam = c.args[2]
+    if [a.arg for a in lam.args.args] != ["atom_grid", "func_vals"] or lam.args.defaults:
+        raise Unsupported(f"{name}: lambda parameters")
+    ic = lam.body
+    if not (isinstance(ic, ast.Call) and _is_name(ic.func, callee_name)) or len(ic.args) > len(cargs):
+        raise Unsupported(f"{name}: the lambda does not call {callee_name}")
+    bound = {}
+    for p_, a in zip(cargs, ic.args):
+        bound[p_] = _u(a)
+    for k in ic.keywords:
+        if k.arg is None or k.arg in bound or k.arg not in cargs:
+            raise Unsupported(f"{name}: keyword of the inner call")
+        bound[k.arg] = _u(k.value)
+    P.append(f"/-- `{name}`: defaults of the public function, in order, and the per-atom call `{_u(ic)}`")
+    P.append(f"resolved against the signature of `{callee_name}`: (parameter, what it receives). -/")
+    for nm, d in dfl:
+        if nm == "r_interval":
+            if not (isinstance(d, ast.Tuple) and len(d.elts) == 2):
+                raise Unsupported("r_interval default")
+            P.append(f"def {lean}PublicIntervalDefault : K × K := ({Ex(src, {}).e(d.elts[0])}, {Ex(src, {}).e(d.elts[1])})")
+        elif nm == "include_origin":
+            if not (isinstance(d, ast.Constant) and isinstance(d.value, bool)):
+                raise Unsupported("include_origin default")
+            P.append(f"def {lean}PublicIncludeOriginDefault : Bool := {'true' if d.value else 'false'}")
+        elif nm == "remove_large_pts":
+            P.append(f"def {lean}PublicRemoveLargeDefault : K := {_lit(ast.get_source_segment(src, d), d.value)}")
+        elif not (isinstance(d, ast.Constant) and d.value is None):
+            raise Unsupported(f"{name}: default of {nm}")
+        if nm in cdfl and _u(cdfl[nm]) != _u(d) and nm in ("boundary", "ode_params"):
+            raise Unsupported(f"{name}: default of {nm} differs from {callee_name}")
+    P.append(f"def {lean}PublicNoneDefaults : List String := {_strs([nm for nm, d in dfl if isinstance(d, ast.Constant) and d.value is None])}")
+    P.append(f"def {lean}Forward : List (String × String) := {_pairs([(p_, bound[p_]) for p_ in cargs if p_ in bound])}\n")
+    return P
+
+
+def _harm_degree(ip, src, lean, P):
+    """r_sph_harm = generate_real_spherical_harmonics(atomgrid.l_max // 2, theta, phi)"""
+    a = _one_assign(ip, "r_sph_harm")
+    c = a.value
+    if not (isinstance(c, ast.Call) and _is_name(c.func, "generate_real_spherical_harmonics") and len(c.args) == 3 and not c.keywords
+            and _is_name(c.args[1], "theta") and _is_name(c.args[2], "phi")):
+        raise Unsupported(f"{lean}: r_sph_harm")
+    P.append(f"/-- `{_u(a)}`: the largest degree of the harmonics the radial values are contracted with. -/")
+    P.append(f"def {lean}HarmDegree (l_max : Nat) : Int := {_iexpr(c.args[0], {})}\n")
+
+
+def _y00_angles(fn, src, lean, P):
+    sph = _one_assign(fn, "sph_o_l")
+    c = sph.value
+    out = []
+    for a in c.args[1:]:
+        if not (isinstance(a, ast.Call) and _np_call(a.func) == "array" and len(a.args) == 1 and isinstance(a.args[0], ast.List) and len(a.args[0].elts) == 1):
+            raise Unsupported(f"{lean}: angles of sph_o_l")
+        out.append(Ex(src, {}).e(a.args[0].elts[0]))
+    P.append(f"/-- `{_u(sph)}`: the (arbitrary) angles at which the constant harmonic `Y_00` is evaluated. -/")
+    P.append(f"def {lean}Y00Angles : K × K := ({out[0]}, {out[1]})\n")
+
+
+def _spline_counter(fn, mloop, lean, P):
+    """i_spline = 0 before the loops, i_spline += 1 once per (l, m) after the solve, the defaults `i_spline=i_spline`, `l_deg=l_deg`."""
+    init = _one_assign(fn, "i_spline")
+    if not (isinstance(init.value, ast.Constant) and isinstance(init.value.value, int) and not isinstance(init.value.value, bool) and init.value.value >= 0):
+        raise Unsupported(f"{lean}: i_spline initial value")
+    steps = [s for s in mloop.body if isinstance(s, ast.AugAssign) and _is_name(s.target, "i_spline")]
+    if len(steps) != 1 or not isinstance(steps[0].op, ast.Add) or not (isinstance(steps[0].value, ast.Constant) and isinstance(steps[0].value.value, int) and steps[0].value.value >= 0):
+        raise Unsupported(f"{lean}: i_spline step")
+    P.append(f"/-- `{_u(init)}` before the loops; `{_u(steps[0])}` once per `(l_deg, m_ord)`, after the solve: the index of the radial component")
+    P.append("of the density (`radial_components[i_spline]`) the right-hand side of a problem reads. -/")
+    P.append(f"def {lean}SplineStart : Nat := {init.value.value}")
+    P.append(f"def {lean}SplineStep (i_spline : Nat) : Nat := i_spline + {steps[0].value.value}\n")
+
+
+def _def_defaults(f, want: dict[str, str], where):
+    """nested helper `def f(r, x=x)`: the parameters after `r` must be bound by same-name defaults (definition-time binding)."""
+    ps = [a.arg for a in f.args.args]
+    nd = len(f.args.defaults)
+    if ps[:1] != ["r"] or ps[1:] != list(want) or nd != len(want) or any(not _is_name(d, n) for n, d in zip(ps[1:], f.args.defaults)):
+        raise Unsupported(f"{where}: parameters of {f.name}: ({_u(f.args)})")
+
+
+# ----------------------------------------------------------------------------------------------
 # fragments shared by the two atomic solvers
 # ----------------------------------------------------------------------------------------------
 def _boundary_def(fn, src, lean_name, doc):
@@ -492,7 +669,7 @@ def _bvp(tree, src) -> list[str]:
     P.append(f"/-- `{ctext}` evaluated at `r` (orders 0, 1, 2). -/")
     P.append(f"def bvpCoeffs (l_deg : Nat) (r : K) : List K := [{', '.join(cl)}]\n")
     # bd_cond
-    st = _monopole_if(mloop, "bd_cond")
+    st = st_bd = _monopole_if(mloop, "bd_cond")
 
     def bdl(n):
         if not isinstance(n, ast.List):
@@ -543,6 +720,80 @@ def _bvp(tree, src) -> list[str]:
         raise Unsupported("bvp interpolate: einsum")
     P.append("/-- contraction of radial values with the spherical harmonics. -/")
     P.append(f"def bvpEinsum : List String := {_strs(_call_args(es[0], src))}\n")
+    # ---- round 3: every statement of the function, in order -------------------------------------
+    import json
+
+    S = _Seq(fn.body, "_solve_poisson_bvp_atomgrid")
+    guards = [_type_guard(S.next(ast.If), "_solve_poisson_bvp_atomgrid") for _ in range(3)]
+    P.append("/-- the three `if not isinstance(<option>, <classes>): raise TypeError(...)` guards, in order: (option, accepted classes). -/")
+    P.append("def bvpTypeGuards : List (String × List String) := [" + ", ".join(f"({json.dumps(n)}, {_strs(c)})" for n, c in guards) + "]\n")
+    st = S.next(ast.If)
+    if st is not holder[0] or st.orelse or len(st.body) != 2 or st.body[1] is not bnd or not (isinstance(st.body[0], ast.Assign) and _is_name(st.body[0].targets[0], "sph_o_l")):
+        raise Unsupported("bvp: body of `if boundary is None`")
+    _y00_angles(fn, src, "bvp", P)
+    S.next(text="domain = transform.domain")
+    g = S.next(ast.If)
+    if g.orelse or len(g.body) != 1 or not (isinstance(g.body[0], ast.Raise) and isinstance(g.body[0].exc, ast.Call) and _is_name(g.body[0].exc.func, "ValueError")):
+        raise Unsupported("bvp: domain guard")
+    dom_idx = []
+
+    def dom_atom(n):
+        if isinstance(n, ast.Subscript) and _is_name(n.value, "domain") and isinstance(n.slice, ast.Constant) and isinstance(n.slice.value, int) and not isinstance(n.slice.value, bool) and n.slice.value >= 0:
+            dom_idx.append(n.slice.value)
+            return "d"
+        return None
+
+    dom_txt = Ex(src, {}, dom_atom).cond(g.test)
+    if len(set(dom_idx)) != 1:
+        raise Unsupported("bvp: domain guard inspects more than one end")
+    P.append(f"/-- `domain = transform.domain`; `if {_u(g.test)}: raise ValueError(...)`: `d` = `domain[bvpDomainIndex]`, the lower end of the transform's domain. -/")
+    P.append(f"def bvpDomainIndex : Nat := {dom_idx[0]}")
+    P.append(f"def bvpDomainRejects (d : K) : Prop := {dom_txt}")
+    P.append("instance (d : K) : Decidable (bvpDomainRejects d) := by unfold bvpDomainRejects; infer_instance\n")
+    S.next(text="radial_components = atomgrid.radial_component_splines(func_vals)")
+    S.next(text="rad_points = atomgrid.rgrid.points.copy()")
+    if S.next(ast.If) is not inc[0] or S.next(ast.If) is not rm[0]:
+        raise Unsupported("bvp: order of the origin / large-point blocks")
+    wi = w.value.slice
+    if not (isinstance(wi, ast.Constant) and isinstance(wi.value, int) and not isinstance(wi.value, bool) and wi.value >= 0):
+        raise Unsupported("bvp: index of np.where(...)")
+    P.append(f"/-- `{_u(w)}`: `np.where` of a one-dimensional mask returns a 1-tuple; entry `bvpWhereIndex` holds the positions to delete. -/")
+    P.append(f"def bvpWhereIndex : Nat := {wi.value}\n")
+    S.next(text="ode_params = dict({}) if ode_params is None else dict(ode_params)")
+    for key in ("tol", "max_nodes", "no_derivatives"):
+        S.next(ast.Expr, prefix=f"ode_params.setdefault('{key}', ")
+    S.next(text="splines = []")
+    S.next(ast.Assign, prefix="i_spline = ")
+    if S.next(ast.For) is not lo or len(lo.body) != 1 or lo.orelse or mloop.orelse:
+        raise Unsupported("bvp: the l_deg loop holds more than the m_ord loop")
+    if S.next(ast.FunctionDef) is not ip or [a.arg for a in ip.args.args] != ["points"] or ip.args.defaults:
+        raise Unsupported("bvp: def interpolate(points)")
+    S.next(text="return interpolate")
+    S.done()
+    M = _Seq(mloop.body, "_solve_poisson_bvp_atomgrid (l, m) loop")
+    if M.next(ast.FunctionDef) is not fx or M.next(ast.FunctionDef) is not c0:
+        raise Unsupported("bvp: nested helpers f_x, coeff_0")
+    _def_defaults(fx, {"i_spline": "i_spline"}, "bvp")
+    _def_defaults(c0, {"l_deg": "l_deg"}, "bvp")
+    M.next(ast.Assign, prefix="coeffs = ")
+    if M.next(ast.If) is not st_bd:
+        raise Unsupported("bvp: bd_cond block")
+    if M.next(ast.Assign, prefix="u_lm = solve_ode_bvp(").value is not cs[0]:
+        raise Unsupported("bvp: u_lm = solve_ode_bvp(...)")
+    M.next(ast.AugAssign, prefix="i_spline += ")
+    M.next(text="splines.append(u_lm)")
+    M.done()
+    _spline_counter(fn, mloop, "bvp", P)
+    I = _Seq(ip.body, "_solve_poisson_bvp_atomgrid interpolate")
+    I.next(text="r_pts, theta, phi = atomgrid.convert_cartesian_to_spherical(points).T")
+    wb = I.next(ast.With)
+    if len(wb.body) != 1 + len(masked) or wb.body[0] is not rv[0] or any(a is not b for a, b in zip(wb.body[1:], masked)):
+        raise Unsupported("bvp interpolate: body of the errstate block")
+    I.next(ast.Assign, prefix="r_sph_harm = ")
+    if I.next(ast.Return).value is not es[0]:
+        raise Unsupported("bvp interpolate: return np.einsum(...)")
+    I.done()
+    _harm_degree(ip, src, "bvp", P)
     return P
 
 
@@ -570,7 +821,7 @@ def _ivp(tree, src) -> list[str]:
         return None
 
     exg = Ex(src, {}, ri_atom)
-    P.append(f"/-- `if {ast.get_source_segment(src, g.test)}: raise ValueError`. -/")
+    P.append(f"/-- `if {ast.get_source_segment(src, g.test)}: raise ValueError` (message: `{_u(g.body[0].exc)[:220]}`). -/")
     P.append(f"def ivpRejects (r0 r1 : K) : Prop := {exg.cond(g.test)}")
     P.append("instance (r0 r1 : K) : Decidable (ivpRejects r0 r1) := by unfold ivpRejects; infer_instance\n")
     rm = _one_assign(fn, "r_max")
@@ -643,6 +894,50 @@ def _ivp(tree, src) -> list[str]:
     if len(es) != 1:
         raise Unsupported("ivp interpolate: einsum")
     P.append(f"def ivpEinsum : List String := {_strs(_call_args(es[0], src))}\n")
+    # ---- round 3: every statement of the function, in order -------------------------------------
+    S = _Seq(fn.body, "_solve_poisson_ivp_atomgrid")
+    if S.next(ast.If) is not g or g.orelse:
+        raise Unsupported("ivp: interval guard")
+    S.next(text="radial_components = atomgrid.radial_component_splines(func_vals)")
+    S.next(ast.Assign, prefix="sph_o_l = ")
+    if S.next(ast.Assign) is not rm or S.next(ast.Assign, prefix="boundary = ") is None:
+        raise Unsupported("ivp: r_max / boundary")
+    _y00_angles(fn, src, "ivp", P)
+    S.next(text="ode_params = dict({}) if ode_params is None else dict(ode_params)")
+    for key in ("method", "rtol", "atol"):
+        S.next(ast.Expr, prefix=f"ode_params.setdefault('{key}', ")
+    S.next(text="splines = []")
+    S.next(ast.Assign, prefix="i_spline = ")
+    if S.next(ast.For) is not lo or len(lo.body) != 1 or lo.orelse or mloop.orelse:
+        raise Unsupported("ivp: the l_deg loop holds more than the m_ord loop")
+    if S.next(ast.FunctionDef) is not ip or [a.arg for a in ip.args.args] != ["points"] or ip.args.defaults:
+        raise Unsupported("ivp: def interpolate(points)")
+    S.next(text="return interpolate")
+    S.done()
+    M = _Seq(mloop.body, "_solve_poisson_ivp_atomgrid (l, m) loop")
+    if M.next(ast.FunctionDef) is not fx or M.next(ast.FunctionDef) is not c0 or M.next(ast.FunctionDef) is not c1:
+        raise Unsupported("ivp: nested helpers f_x, coeff_0, coeff_1")
+    _def_defaults(fx, {"i_spline": "i_spline"}, "ivp")
+    _def_defaults(c0, {"l_deg": "l_deg"}, "ivp")
+    _def_defaults(c1, {}, "ivp")
+    M.next(ast.Assign, prefix="coeffs = ")
+    if M.next(ast.If) is not st:
+        raise Unsupported("ivp: initial-data block")
+    if M.next(ast.Assign, prefix="u_lm = solve_ode_ivp(").value is not cs[0]:
+        raise Unsupported("ivp: u_lm = solve_ode_ivp(...)")
+    M.next(ast.AugAssign, prefix="i_spline += ")
+    M.next(text="splines.append(u_lm)")
+    M.done()
+    _spline_counter(fn, mloop, "ivp", P)
+    I = _Seq(ip.body, "_solve_poisson_ivp_atomgrid interpolate")
+    I.next(text="r_pts, theta, phi = atomgrid.convert_cartesian_to_spherical(points).T")
+    if I.next(ast.Assign) is not rv[0]:
+        raise Unsupported("ivp interpolate: r_values")
+    I.next(ast.Assign, prefix="r_sph_harm = ")
+    if I.next(ast.Return).value is not es[0]:
+        raise Unsupported("ivp interpolate: return np.einsum(...)")
+    I.done()
+    _harm_degree(ip, src, "ivp", P)
     return P
 
 
@@ -701,6 +996,37 @@ def _mol(tree, src) -> list[str]:
 
     P.append("/-- `output = interpolate_funcs[0](points)`; `for …[1:]: output += interpolate(points)`: one step of the sum. -/")
     P.append(f"def molSumStep (output v : K) : K := (output + {Ex(src, {}, atom2).e(step.value)})\n")
+    # ---- round 3: every statement of the function, in order -------------------------------------
+    if [x.arg for x in fn.args.args] != ["molgrid", "func_vals", "interpolate_callable"] or fn.args.defaults:
+        raise Unsupported("_interpolate_molgrid_helper parameters")
+    S = _Seq(fn.body, "_interpolate_molgrid_helper")
+    _wrap_atomgrid(S.next(ast.If), src, "mol", P)
+    gd = S.next(ast.If)
+    if gd.orelse or _u(gd.test) != "molgrid.atgrids is None" or len(gd.body) != 1 or not (isinstance(gd.body[0], ast.Raise) and isinstance(gd.body[0].exc, ast.Call)
+                                                                                      and _is_name(gd.body[0].exc.func, "ValueError")):
+        raise Unsupported("_interpolate_molgrid_helper: `if molgrid.atgrids is None: raise ValueError` guard")
+    P.append("/-- `if molgrid.atgrids is None: raise ValueError(...)`: a molecular grid built with `store=False` is rejected. -/")
+    P.append("def molRequiresStore : Bool := true\n")
+    if S.next(ast.Assign) is not a:
+        raise Unsupported("_interpolate_molgrid_helper: func_vals_atom")
+    S.next(text="interpolate_funcs = []")
+    if S.next(ast.For) is not loop[0] or loop[0].orelse or _u(loop[0].iter) != "range(len(molgrid.atcoords))":
+        raise Unsupported("_interpolate_molgrid_helper: atom loop")
+    Lb = _Seq(loop[0].body, "_interpolate_molgrid_helper atom loop")
+    Lb.next(ast.Assign, prefix="start_index = molgrid.indices[")
+    Lb.next(ast.Assign, prefix="final_index = molgrid.indices[")
+    Lb.next(text="atom_grid = molgrid[i]")
+    ap = Lb.next(ast.Expr)
+    if not (isinstance(ap.value, ast.Call) and _u(ap.value.func) == "interpolate_funcs.append" and len(ap.value.args) == 1 and ap.value.args[0] is cs[0]):
+        raise Unsupported("_interpolate_molgrid_helper: interpolate_funcs.append(interpolate_callable(...))")
+    Lb.done()
+    if S.next(ast.FunctionDef) is not sm or [x.arg for x in sm.args.args] != ["points"] or sm.args.defaults:
+        raise Unsupported("_interpolate_molgrid_helper: def sum_of_interpolation_functions(points)")
+    S.next(text="return sum_of_interpolation_functions")
+    S.done()
+    P.append("/-- `for i in range(len(molgrid.atcoords)):` … `atom_grid = molgrid[i]`: the term of atom `i` is built from the grid `molgrid[i]` and the slice")
+    P.append("`func_vals_atom[start_index:final_index]`, inside the loop iteration (no closure: `interpolate_callable` is *called* here). -/")
+    P.append("def molAtomGrid : String := \"molgrid[i]\"\n")
     return P
 
 
@@ -1078,6 +1404,9 @@ def translate(poisson_src: str, robust_src: str) -> str:
     parts = ["/-! ### `_solve_poisson_bvp_atomgrid` -/\n"] + _bvp(t1, poisson_src)
     parts += ["/-! ### `_solve_poisson_ivp_atomgrid` -/\n"] + _ivp(t1, poisson_src)
     parts += ["/-! ### `_interpolate_molgrid_helper` -/\n"] + _mol(t1, poisson_src)
+    parts += ["/-! ### `solve_poisson_ivp`, `solve_poisson_bvp` (public wrappers) -/\n"]
+    parts += _public(t1, poisson_src, "solve_poisson_ivp", "_solve_poisson_ivp_atomgrid", "ivp")
+    parts += _public(t1, poisson_src, "solve_poisson_bvp", "_solve_poisson_bvp_atomgrid", "bvp")
     parts += ["/-! ### `interpolate_laplacian` -/\n"] + _lap(t1, poisson_src)
     parts += ["/-! ### `robust_poisson` -/\n"] + _robust(t2, robust_src)
     return "\n".join(parts)
